@@ -159,6 +159,11 @@ pub fn hostile_date(r: &mut Rng) -> NaiveDate {
         5 => ymd(y, 6, r.int(18, 24) as u32),
         6 => ymd(y, 12, r.int(18, 24) as u32),
         7 => ymd(y, 9, r.int(19, 26) as u32),
+        9 => {
+            // the machine's own current date and its neighbours (code that special-cases "today")
+            let t = chrono::Local::now().date_naive();
+            from_ce(ce(t) + r.int(-1, 1) as i32)
+        }
         8 => {
             // January / February / 1 March of the century years (1700, 1800, 1900, 2100, 2200, 2300 are not leap)
             let cy = *r.pick(&[1600, 1700, 1800, 1900, 2000, 2100, 2200, 2300]);
